@@ -289,3 +289,20 @@ func (c *SimChain) Broadcast(by int, rawHex string, kind string) (string, error)
 	c.w.Observe(&Obs{Node: by, Inc: c.w.Sim.Incarnation(by), Kind: "tx.broadcast", Tx: to})
 	return tx.ID, nil
 }
+
+// SpendPlain makes the wallet of node `by` spend a non-swap output (e.g. its
+// change), so that gettxout for it answers "spent" from then on.
+func (c *SimChain) SpendPlain(by int, txid string, vout uint32) {
+	var rawHex string
+	if c.Name == "btc" {
+		rawHex = plainBtcSpend(txid, vout)
+	} else {
+		rawHex = plainLiquidSpend(txid, vout)
+	}
+	if rawHex == "" {
+		return
+	}
+	if _, err := c.Broadcast(by, rawHex, "wallet-spend"); err == nil {
+		c.w.Probe("wallet:change-spent")
+	}
+}
